@@ -336,11 +336,17 @@ func c19QuotaCase(c *Ctx) *Result {
 	}
 	// exceed: single-quota user goes well above 2 MB (+1 MiB granularity margin)
 	if sig == "" {
-		move(0, 3*MiB+MiB/2)
+		// (the allowance is compared in whole megabytes of the counted total:
+		// 3 MiB and more counts as above 2 MB. Either well above, or a quarter
+		// of a megabyte above that line with both directions contributing
+		// fractions of a megabyte)
+		extra := pick(r, 3*MiB+MiB/2, 2*MiB+3*MiB/4)
+		move(0, extra)
 		ok, relayed, _ := probe(0)
 		res.Obs["quota_probes"]++
+		up, down, _ := userCounters(qn)
 		if ok || relayed > 0 {
-			sig, detail = "exceeded-user-still-served", fmt.Sprintf("user with a 2 MB/day quota and ~4 MiB counted traffic got a new session served (%d server->client bytes relayed)", relayed)
+			sig, detail = "exceeded-user-still-served", fmt.Sprintf("user with a 2 MB/day quota and %d + %d = %.2f MiB counted traffic got a new session served (%d server->client bytes relayed)", up, down, float64(up+down)/MiB, relayed)
 		}
 	}
 	if sig == "" {
